@@ -146,6 +146,7 @@ class Node:
             p.start()
         self.uniq = {}        # real container name -> (a, g)
         self.gens = {}        # a -> generations handed out
+        self.cur = {}         # a -> generation of the entry now in cache/
         self.tomb = []        # [(a, g)] exit tombstones not yet handled
         self.keep_fds = []    # keeps every cache inode alive: no inode reuse,
         #                       hence distinct unique ids whatever the ctime granularity
@@ -237,12 +238,18 @@ class Node:
 
     def project(self):
         env = self.mgr.tm_env
-        cache = []
+        # two views of "which generation is cached", logged separately so that TLC
+        # checks that they agree (drift.ident): `cache` by history (the generation
+        # the environment wrote last), `cacheid` by what the code will compute
+        # from the file NOW (eventfile_unique_name: inode + ctime)
+        cache, cacheid = [], []
         for f in sorted(os.listdir(env.cache_dir)):
             if f.startswith('.'):
                 continue
+            a = model_name(f)
             u = appcfg.eventfile_unique_name(os.path.join(env.cache_dir, f))
-            cache.append(dict(a=model_name(f), g=self.uniq.get(u, (None, 0))[1]))
+            cache.append(dict(a=a, g=self.cur.get(a, 0)))
+            cacheid.append(dict(a=a, g=self.uniq.get(u, (None, 0))[1]))
         apps = []
         for d in sorted(os.listdir(env.apps_dir)):
             data = os.path.join(env.apps_dir, d, 'data')
@@ -261,7 +268,7 @@ class Node:
             if not os.path.islink(p):
                 raise tlc.MachineryError('cleanup/%s is not a link' % f)
             cleanup.append(dict(n=self._link_name(f), t=self._cont(os.path.basename(os.readlink(p)))))
-        return dict(cache=cache, ready=os.path.exists(os.path.join(env.cache_dir, READY)),
+        return dict(cache=cache, cacheid=cacheid, ready=os.path.exists(os.path.join(env.cache_dir, READY)),
                     active=bool(self.mgr._is_active), pending=self.pending(), apps=apps,
                     running=running, cleanup=cleanup,
                     tomb=[dict(i=a, g=g) for a, g in self.tomb])
@@ -293,6 +300,7 @@ class Node:
             raise tlc.MachineryError('unique name %s handed out twice' % u)
         g = self.gens.get(a, 0) + 1
         self.gens[a] = g
+        self.cur[a] = g
         self.uniq[u] = (a, g)
         return 'CacheCreate', [a, g]
 
@@ -301,6 +309,7 @@ class Node:
         if not os.path.exists(path):
             return None
         os.unlink(path)                   # eventmgr._synchronize: os.unlink
+        self.cur.pop(a, None)
         return 'CacheDelete', [a]
 
     def op_ReadyOn(self):
